@@ -471,7 +471,7 @@ Qed.
 
 Lemma progress_step items st done e sc todo : tr_ready' items -> tr_hdrs_ok ahdr aparse (map fst items) ->
   items = done ++ (e, sc) :: todo -> PInv st (map fst done) ->
-  exists st', spec_entry e sc st = Some (tr_key c e, st') /\ coll_ok hx c d e st /\ PInv st' (map fst (done ++ [(e, sc)])).
+  exists st', spec_entry e sc st = Some (tr_key c e, st') /\ tr_coll_ok hx c d e st /\ PInv st' (map fst (done ++ [(e, sc)])).
 Proof.
   intros Hr Hh Hes HI. pose proof HI as (Hc & Hdirs & Hmap & Hframe).
   pose proof Hr as (Hclean & Hdist & Hpar & Hids & Hplaces & Harc & Hnd).
@@ -518,7 +518,7 @@ Proof.
   assert (Hold1 : tr_old_content st1 (leaf_of e) =
                   if te_isdir e then [] else if tr_json_names c then old_content (st_fs st) (leaf_of e) else []).
   { unfold tr_old_content. rewrite Hl1. destruct (te_isdir e); [reflexivity|]. rewrite write0_nil_r. destruct (tr_json_names c); reflexivity. }
-  assert (Hcoll : coll_ok hx c d e st).
+  assert (Hcoll : tr_coll_ok hx c d e st).
   { intros ln st1' E1' Hne. rewrite E1 in E1'. inversion E1'; subst ln st1'. rewrite Hleafeq in Hne |- *. rewrite Hold1 in Hne |- *.
     destruct (te_isdir e); [congruence|]. destruct (tr_json_names c); [|congruence].
     destruct Hpl0 as [Hl|(_ & _ & old & Hl & _ & Hnc)].
@@ -573,12 +573,12 @@ Qed.
 Lemma progress_all items : tr_ready' items -> tr_hdrs_ok ahdr aparse (map fst items) ->
   forall todo done st names, items = done ++ todo -> PInv st (map fst done) ->
   exists all stf, spec todo st names = Some (map (tr_key c) (map fst todo), all, stf) /\
-    resume_safe hx ahdr aparse c d todo st /\ PInv stf (map fst items).
+    tr_resume_safe hx ahdr aparse c d todo st /\ PInv stf (map fst items).
 Proof.
   intros Hr Hh. induction todo as [|[e sc] todo IH]; intros done st names Hes HI.
   - cbn. rewrite app_nil_r in Hes. subst done. eauto.
   - destruct (progress_step items st done e sc todo Hr Hh Hes HI) as (st' & Es & Hcoll & HI').
-    cbn [tr_spec map fst resume_safe]. rewrite Es.
+    cbn [tr_spec map fst tr_resume_safe]. rewrite Es.
     destruct (IH (done ++ [(e, sc)]) st' (tr_add_name names (tr_key c e))) as (all & stf & E & Hsafe & HF); [rewrite <- app_assoc; exact Hes | exact HI'|].
     rewrite E. eauto 6.
 Qed.
@@ -587,7 +587,7 @@ Qed.
    (for an archive: what is below its name) has changed *)
 Theorem ready_accepts items : stat f0 d = SFound Dir -> tr_ready' items -> tr_hdrs_ok ahdr aparse (map fst items) ->
   exists all stf, spec items (init_state f0) [] = Some (map (tr_key c) (map fst items), all, stf) /\
-    resume_safe hx ahdr aparse c d items (init_state f0) /\
+    tr_resume_safe hx ahdr aparse c d items (init_state f0) /\
     forall q, q <> [] -> untouched (map fst items) q -> lookup (st_fs stf) q = lookup f0 q.
 Proof.
   intros Hd Hr Hh.
